@@ -47,6 +47,9 @@ HOSTILE_INNER = [
     "select E'a\\nb', N'x', X'00FF', b'0101', _utf8'x', U&'d', n'y', e'z' from t",
     "select * from t where a = E'it''s' and b = x'AB' and c = 1e5 and d = .5 and e = 5. and f = 0x1F and g = 1.e3",
     "select $1, :name, %s, %(n)s, $$body$$ from t",
+    # statement separators that are text: inside literals and quoted names, doubled, blank between
+    "select ';;', '; ;', 'a;;b', \"x;;y\", `c;;d` from t where e = ';'",
+    "select ';' ; select ';;'",
     "select * from t where name = ''",
     "select * from t where name = 'it''s'",
     "select '''', '''a', 'a''', 'a''''b'",
